@@ -231,6 +231,16 @@ theorem lone_question_mark_text_dropped :
       = some [.path [0x2F,0x71,0x3F,0x61,0x3D,0x31] true, .raw [], .query [0x62]] := by
   decide +kernel
 
+/-- Known finding `url-value-ends-with-second-question-mark`: a `?` at the very end of the value
+that brings the query counts as "the query is empty so far" also when the value has an earlier
+`?`: no `&amp;` replaces the `?` removed from the following text (`/q?a=1?` `?p2=` `x` writes
+`/q?a=1?` `p2=` `x`). -/
+theorem value_ends_with_second_question_mark :
+    (run [.show [0x2F,0x71,0x3F,0x61,0x3D,0x31,0x3F] true true, .text [0x3F,0x70,0x32,0x3D] true false,
+          .show [0x78] true true]).toOption.map Prod.snd
+      = some [.path [0x2F,0x71,0x3F,0x61,0x3D,0x31,0x3F] true, .raw [0x70,0x32,0x3D], .query [0x78]] := by
+  decide +kernel
+
 /-! ### The URL attribute pipeline end to end, for plain strings
 The browser's side: the HTML tokenizer decodes the character references of the attribute value
 (`htmlDecode`, any named-reference table that knows `amp`, `lt`, `gt`), the URL is split at its
